@@ -23,7 +23,7 @@
    The remaining side conditions are necessary: `initial` naming a history pseudo-state (F35), a history default target that
    is itself a history pseudo-state (F36) or lies outside the history state's parent (F37) each make the code leave an
    illegal configuration - kernel-checked witnesses below, recorded findings. *)
-From XSM Require Import Model.Macro Model.Snap Proofs.LegalP Proofs.ExecP Proofs.FaultP Proofs.StepP Proofs.DescentP Proofs.EffectP Proofs.PreserveP Proofs.InvariantP Proofs.SelectP Proofs.HistoryP Proofs.InvariantHP Proofs.SortP Proofs.IdP Proofs.GeomBridge Proofs.SourceGeomP Proofs.SourceStepP Model.TreeLib Gen.GenTree Gen.GenGeom.
+From XSM Require Import Model.Macro Model.Snap Proofs.LegalP Proofs.ExecP Proofs.FaultP Proofs.StepP Proofs.DescentP Proofs.EffectP Proofs.PreserveP Proofs.InvariantP Proofs.SelectP Proofs.HistoryP Proofs.InvariantHP Proofs.SortP Proofs.IdP Proofs.GeomBridge Proofs.SourceGeomP Proofs.SourceStepP Proofs.EntryBridge Model.TreeLib Gen.GenTree Gen.GenGeom.
 From Coq Require Import Permutation.
 
 Theorem C01_legal_is_the_definition : forall m C, legal m C = true <-> Legal m C.
@@ -215,6 +215,31 @@ Print Assumptions C01_ancestors_are_the_source.
    transition executed with the geometry THE SOURCE computes (domain, exit set, entry path, expansion of a history target,
    combined entry path of the restored states - all five from Gen/GenGeom.v).  Out of a legal configuration it is the
    model's `exec_external`, so the preservation theorems above hold of the transition as the source computes it: *)
+(* TIE T for default descent (what C01_initial_configuration_legal and every entry rest on): for one state of the list being
+   entered, WHAT is entered below it by default - its initial child unless the list names one of its children, the regions the
+   list does not name (history children are not regions), nothing, or an error (children but no initial) - as decided by
+   _enter_states in BOTH engines' copies, re-translated from the current source on every run with the effects dropped
+   (Gen/GenGeom.v: descent_async, descent_sync), is the decision the model's `enter_one` acts on *)
+Theorem C01_descent_is_the_source_async : forall m l x, GenGeom.descent_async m l x = model_descent m l x.
+Proof. exact descent_async_bridge. Qed.
+Print Assumptions C01_descent_is_the_source_async.
+Theorem C01_descent_is_the_source_sync : forall m l x, GenGeom.descent_sync m l x = model_descent m l x.
+Proof. exact descent_sync_bridge. Qed.
+Print Assumptions C01_descent_is_the_source_sync.
+Theorem C01_entry_acts_on_the_decision : forall eng pr m rec l ev x,
+  enter_one eng pr m rec (parents_of m l) (with_parent m l) ev x =
+  (lift (fun s => logo (OEnter x) (with_cfg (cadd x (s_cfg s)) s)) ;;
+   (fun s => exec_actions eng pr (n_entry (nd m x)) (entry_event eng m ev x) s) ;;
+   sched_before eng m x ;;
+   (if is_final m x then lift (fire_on_done eng pr m x) else ret) ;;
+   match model_descent m l x with
+   | DescendInto below => rec below (match eng with Async => Some (entry_event eng m ev x) | _ => ev end) ;; sched_after eng m x
+   | DescendNone => sched_after eng m x
+   | DescendError => raise EInvalidConfig
+   end).
+Proof. exact enter_one_decides. Qed.
+Print Assumptions C01_entry_acts_on_the_decision.
+
 (* the PLAN of an external transition - domain, exit order, entry path, combined entry path of a history target - is SLICED OUT
    of the effects of _execute_transition (asyncio engine) and of SyncInterpreter._process_single_transition by the translator
    on every run (Gen/GenGeom.v: xt_* and pst_*; the translator refuses unless the effects around the plan are, in this order,
